@@ -330,6 +330,15 @@ def Tether.withTether (t : Tether α) (p q : Pt α) : Tether α :=
       ⟨r.x - t.offX, r.y - t.offY⟩
     Tether.new t.offX t.offY (some (un p, un q))
 
+/-- `ImageStack.define_tether(point1, point2)` on a pixel-calibrated stack: the points are given in image units (µm)
+    and divided by `_pixel_calibration_factors` (`cal` µm per pixel on both axes) before `TiffStack.with_tether`. -/
+def Tether.defineCal (t : Tether α) (cal : α) (p q : Pt α) : Tether α :=
+  t.withTether ⟨p.x / cal, p.y / cal⟩ ⟨q.x / cal, q.y / cal⟩
+
+/-- `plot_tether`: the processed ends in image units (`ends * _pixel_calibration_factors`). -/
+def Tether.endsCal (t : Tether α) (cal : α) : Option (Pt α × Pt α) :=
+  t.endsProcessed.map fun (a, b) => (⟨a.x * cal, a.y * cal⟩, ⟨b.x * cal, b.y * cal⟩)
+
 /-! ### affine maps (`TransformMatrix`): colour alignment and tether rotation of the pixel data
 
   `TiffFrame._align_image` warps channel `c` of the raw page with `tether.rot_matrix * alignment_c⁻¹`
@@ -558,11 +567,14 @@ def showRanges (l : List (Int × Int)) : String :=
 structure TStack where
   stk : Stack
   teth : Tether Float
+  /-- `pixelsize_um` once a tether was defined in image units (step `U`): the tether is then reported as `plot_tether`
+      draws it, in image units -/
+  cal : Option Float := none
 
 def showPt (p : Pt Float) : String := showFloat p.x ++ "," ++ showFloat p.y
 
-def showTether (t : Tether Float) : String :=
-  match t.endsProcessed with
+def showTether (t : Tether Float) (cal : Option Float := none) : String :=
+  match (match cal with | none => t.endsProcessed | some c => t.endsCal c) with
   | none => "none"
   | some (a, b) => showPt a ++ "," ++ showPt b
 
@@ -574,7 +586,7 @@ def showState (t : TStack) (pages : List Page) (legacy : Bool) : String :=
     ++ (match s.ranges pages true legacy with | some r => showRanges r | none => "?") ++ " "
     ++ (match s.start pages with | some v => toString v | none => "?") ++ " "
     ++ (match s.stop pages with | some v => toString v | none => "?") ++ " "
-    ++ showTether t.teth
+    ++ showTether t.teth t.cal
     ++ " nf=" ++ toString s.shape.1 ++ " shape=" ++ toString s.shape.1 ++ "x" ++ toString s.shape.2.1 ++ "x" ++ toString s.shape.2.2
 
 def splitColon (s : String) : List String := s.splitOn ":"
@@ -595,7 +607,7 @@ def ofInt (i : Int) : Float := Float.ofInt i
 def floorInt (x : Float) : Int := (Float.floor x).toInt64.toInt
 
 def withRoi (t : TStack) (r : Except Err Stack) : Except Err TStack :=
-  r.map fun s => ⟨s, t.teth.withNewOffsets (ofInt s.roi.xMin) (ofInt s.roi.yMin)⟩
+  r.map fun s => ⟨s, t.teth.withNewOffsets (ofInt s.roi.xMin) (ofInt s.roi.yMin), t.cal⟩
 
 /-- One step of a program.
   `s,a,b,c`       frame slice (`N` = None)        `i,k`   integer index
@@ -603,6 +615,7 @@ def withRoi (t : TStack) (r : Except Err Stack) : Except Err TStack :=
   `g,<item>,<item>,…`   tuple index, items `k` or `a:b` or `a:b:c`
   `t,a,b,c`       frame slice with time-like bounds (`r<ns>` = time string of that many ns)
   `T,x1,y1,x2,y2` `define_tether` (doubles as bit patterns)
+  `U,nm,x1,y1,x2,y2` `define_tether` on a stack calibrated with `nm` nm per pixel: points in µm; the tether is reported in µm
   `k,w`           the stack behind `to_kymo(w)` (timing checks, floors of the processed tether ends, window) -/
 def step (pages : List Page) (t : TStack) (op : String) : Option (Except Err TStack) :=
   match op.splitOn "," with
@@ -628,6 +641,10 @@ def step (pages : List Page) (t : TStack) (op : String) : Option (Except Err TSt
   | ["T", x1, y1, x2, y2] => do
     let x1 ← float? x1; let y1 ← float? y1; let x2 ← float? x2; let y2 ← float? y2
     some (.ok { t with teth := t.teth.withTether ⟨x1, y1⟩ ⟨x2, y2⟩ })
+  | ["U", nm, x1, y1, x2, y2] => do
+    let nm ← float? nm; let x1 ← float? x1; let y1 ← float? y1; let x2 ← float? x2; let y2 ← float? y2
+    let cal := nm / 1000.0   -- `float(json["Pixel calibration (nm/pix)"]) / 1000`
+    some (.ok { t with teth := t.teth.defineCal cal ⟨x1, y1⟩ ⟨x2, y2⟩, cal := some cal })
   | ["k", w] => do
     let w ← int? w
     let r ← t.stk.ranges pages false false
@@ -690,7 +707,7 @@ def handle : List String → Option String
     let h ← nat? h; let w ← nat? w
     let pages ← pages? starts stops exps
     let legacy ← bool? legacy
-    let t0 : TStack := ⟨⟨0, pages.length, 1, ⟨0, w, 0, h⟩⟩, Tether.new 0.0 0.0 none⟩
+    let t0 : TStack := ⟨⟨0, pages.length, 1, ⟨0, w, 0, h⟩⟩, Tether.new 0.0 0.0 none, none⟩
     match ← runProg pages t0 prog with
     | .ok t => some (showState t pages legacy)
     | .error e => some e.show
@@ -701,7 +718,7 @@ def handle : List String → Option String
     let h ← nat? h; let w ← nat? w
     let pages ← pages? starts stops exps
     let legacy ← bool? legacy
-    let t0 : TStack := ⟨⟨0, pages.length, 1, ⟨0, w, 0, h⟩⟩, Tether.new 0.0 0.0 none⟩
+    let t0 : TStack := ⟨⟨0, pages.length, 1, ⟨0, w, 0, h⟩⟩, Tether.new 0.0 0.0 none, none⟩
     match ← runProg pages t0 prog with
     | .ok t =>
       let landed := (mats.zip pts).map fun (m, ps) => ps.map fun r => t.teth.land m r
@@ -711,7 +728,7 @@ def handle : List String → Option String
     let nch ← nat? nch; let h ← nat? h; let w ← nat? w
     let pages ← pages? starts stops exps
     let _ ← bool? legacy
-    let t0 : TStack := ⟨⟨0, pages.length, 1, ⟨0, w, 0, h⟩⟩, Tether.new 0.0 0.0 none⟩
+    let t0 : TStack := ⟨⟨0, pages.length, 1, ⟨0, w, 0, h⟩⟩, Tether.new 0.0 0.0 none, none⟩
     match ← runProg pages t0 prog with
     | .error e => some e.show
     | .ok t =>
@@ -727,7 +744,7 @@ def handle : List String → Option String
       | some ["k", hw, "max"] => (int? hw).map fun v => (v, Reduce.max)
       | some ["k", hw, "min"] => (int? hw).map fun v => (v, Reduce.min)
       | _ => none
-    let t0 : TStack := ⟨⟨0, pages.length, 1, ⟨0, w, 0, h⟩⟩, Tether.new 0.0 0.0 none⟩
+    let t0 : TStack := ⟨⟨0, pages.length, 1, ⟨0, w, 0, h⟩⟩, Tether.new 0.0 0.0 none, none⟩
     match ← runProg pages t0 prog.dropLast with
     | .error e => some e.show
     | .ok t =>
